@@ -1,9 +1,11 @@
 // Engine `auto` (C19): the real rtosc::AutomationMgr driven by one whole operation
 // history per op line.
 //
-// op line:   N:<nslots>:<per_slot>  P:<kind>:<min>:<max>:<scale>:<logmin>:<flag>:<Lmin>:<Lmax> ...  <op> ...
-//   port k is named "p<letter k>::<kind>" (kind i | f | T) and is addressed as "/p<letter k>";
-//   min/max/logmin are decimal literals as they stand in the metadata ("-" = key absent),
+// op line:   N:<nslots>:<per_slot>  P:<kind>:<min>:<max>:<scale>:<logmin>:<flag>:<Lmin>:<Lmax>[:<address>] ...  <op> ...
+//   port k has kind i | f | T and is called "<leaf>::<kind>"; its address is the optional last field
+//   ("/<leaf>" or "/<dir>/<leaf>", names over [A-Za-z0-9_], one nesting level: "<dir>/" is a port
+//   with its own table), default "/p<letter k>";
+//   min/max/logmin are the literals as they stand in the metadata (anything atof reads; "-" = key absent),
 //   scale is lin | log | -, flag is - | internal | nolearn; Lmin/Lmax (only read by the model)
 //   are the float bit patterns libm's logf gives for the log-scale bounds.
 //   ops:  B:s:p:l  createBinding(s, path of port p, l)        (p >= #ports: a path that does not exist)
@@ -14,38 +16,55 @@
 //         M:c:t:v  handleMidi(c, t, v)
 // output:    one segment per op, joined by '|':
 //              <emitted messages, space separated>;<learning,midi_cc,midi_nrpn of every slot, '/' separated>
-//            message = <address hex>,i,<decimal> | <address hex>,f,<float bits> | <address hex>,T | <address hex>,F;
-//            a float that went through expf is printed as  <address hex>,f,<float bits>,x=<bits of the argument of expf>.
+//            message = <address hex>,<whole type-tag string>[,<first argument>][,x=<bits>],#<message size>
+//            first argument: decimal for 'i', float bit pattern for 'f'; x=<bits of the argument of
+//            expf/exp> when the value went through libm's exponential (log-scale parameter).
+//            A message with an empty address (rtosc_message failed) is printed as  -,?,#0.
 // createBinding/setSlotSubPath do not range-check their slot/sub arguments (the model says
 // "oob" for such a line); the harness refuses to run them: "oob".
+//
+// The library is linked as it is.  Its calls of libm's expf / exp are intercepted at link time
+// (-Wl,--wrap=expf -Wl,--wrap=exp, see HARNESS in tools/props/c19.py) so that the argument of the
+// exponential (the clamped value of a log-scale parameter) can be observed whichever spelling
+// (expf(v), std::exp(v), (float)exp((double)v)) the code uses.
 #include "common.h"
 #include <cmath>
 #include <cstdio>
 #include <functional>
+#include <map>
+#include <memory>
+#include <rtosc/automations.h>
 #include <rtosc/ports.h>
 #include <rtosc/rtosc.h>
 
 namespace vhx {
 static bool have_x = false;
 static float last_x = 0;
-static inline float my_expf(float x) { have_x = true; last_x = x; return ::expf(x); }
 } // namespace vhx
-// automations.cpp is compiled inside this translation unit so that the argument of its
-// expf call (the clamped value of a log-scale parameter) can be observed; nothing else changes.
-#define expf(x) vhx::my_expf(x)
-#include "automations.cpp"
-#undef expf
+extern "C" {
+float __real_expf(float);
+double __real_exp(double);
+float __wrap_expf(float x) { vhx::have_x = true; vhx::last_x = x; return __real_expf(x); }
+double __wrap_exp(double x) { vhx::have_x = true; vhx::last_x = (float)x; return __real_exp(x); }
+}
 
 using namespace vh;
 
 namespace {
 struct DynPorts : rtosc::Ports {
     DynPorts() : rtosc::Ports({}) {}
-    void add(const char *name, const char *meta) {
-        ports.push_back(rtosc::Port{name, meta, NULL, [](const char *, rtosc::RtData &) {}});
+    void add(const char *name, const char *meta, const rtosc::Ports *sub = NULL) {
+        ports.push_back(rtosc::Port{name, meta, sub, [](const char *, rtosc::RtData &) {}});
     }
     void done() { refreshMagic(); }
 };
+
+bool name_ok(const std::string &s) {
+    if (s.empty()) return false;
+    for (char c : s)
+        if (!((c >= 'a' && c <= 'z') || (c >= 'A' && c <= 'Z') || (c >= '0' && c <= '9') || c == '_')) return false;
+    return true;
+}
 
 std::vector<std::string> split(const std::string &s, char c) {
     std::vector<std::string> out;
@@ -107,7 +126,7 @@ static std::string step(const std::string &line) {
     if (nslots < 1 || nslots > 64 || per_slot < 1 || per_slot > 16) return "bad-op";
 
     // ---- port table ------------------------------------------------------------------
-    std::vector<std::string> names, metas, paths;
+    std::vector<std::string> names, metas, paths, dirs;
     std::vector<bool> usable; // the port passes the three early returns of createBinding
     size_t i = 1;
     for (; i < w.size() && w[i][0] == 'P'; ++i) {
@@ -115,8 +134,17 @@ static std::string step(const std::string &line) {
         if (f.size() < 7 || f[1].size() != 1) return "bad-op";
         if (names.size() >= 26) return "bad-op";
         char letter = (char)('a' + names.size());
-        names.push_back(std::string("p") + letter + "::" + f[1]);
-        paths.push_back(std::string("/p") + letter);
+        std::string path = std::string("/p") + letter;
+        if (f.size() >= 10) path = f[9];
+        // "/<leaf>" or "/<dir>/<leaf>"
+        if (path.size() < 2 || path[0] != '/') return "bad-op";
+        auto comp = split(path.substr(1), '/');
+        if (comp.size() > 2) return "bad-op";
+        for (auto &c : comp)
+            if (!name_ok(c)) return "bad-op";
+        dirs.push_back(comp.size() == 2 ? comp[0] : std::string());
+        names.push_back(comp.back() + "::" + f[1]);
+        paths.push_back(path);
         std::string m = ":parameter";
         m.push_back('\0');
         if (f[2] != "-") kv(m, "min", f[2]);
@@ -130,8 +158,23 @@ static std::string step(const std::string &line) {
         metas.push_back(m);
         usable.push_back(f[6] == "-" && (f[1] == "T" || (f[2] != "-" && f[3] != "-")));
     }
+    // one table per directory, then the root table (directories first, then the root's own leaves)
+    std::map<std::string, std::unique_ptr<DynPorts>> sub;
+    std::vector<std::string> dirnames; // keeps the "<dir>/" strings alive
+    for (size_t k = 0; k < names.size(); ++k)
+        if (!dirs[k].empty()) {
+            if (!sub.count(dirs[k])) sub[dirs[k]].reset(new DynPorts);
+            sub[dirs[k]]->add(names[k].c_str(), metas[k].data());
+        }
+    dirnames.reserve(sub.size());
     DynPorts ports;
-    for (size_t k = 0; k < names.size(); ++k) ports.add(names[k].c_str(), metas[k].data());
+    for (auto &kvp : sub) {
+        kvp.second->done();
+        dirnames.push_back(kvp.first + "/");
+        ports.add(dirnames.back().c_str(), "", kvp.second.get());
+    }
+    for (size_t k = 0; k < names.size(); ++k)
+        if (dirs[k].empty()) ports.add(names[k].c_str(), metas[k].data());
     ports.done();
 
     rtosc::AutomationMgr *mgr = new rtosc::AutomationMgr(nslots, per_slot, 4);
@@ -139,13 +182,18 @@ static std::string step(const std::string &line) {
     std::string emitted;
     mgr->backend = [&emitted](const char *msg) {
         if (!emitted.empty()) emitted += " ";
+        if (!msg[0]) { // rtosc_message failed: no address, nothing behind it
+            emitted += "-,?,#0";
+            vhx::have_x = false;
+            return;
+        }
         emitted += hexs(msg);
         const char *t = rtosc_argument_string(msg);
-        if (t[0] == 'i') emitted += ",i," + std::to_string(rtosc_argument(msg, 0).i);
-        else if (t[0] == 'f') {
-            emitted += ",f," + fbits(rtosc_argument(msg, 0).f);
-            if (vhx::have_x) emitted += ",x=" + fbits(vhx::last_x);
-        } else emitted += std::string(",") + (t[0] ? std::string(1, t[0]) : std::string("?"));
+        emitted += std::string(",") + (t[0] ? std::string(t) : std::string("?"));
+        if (t[0] == 'i') emitted += "," + std::to_string(rtosc_argument(msg, 0).i);
+        else if (t[0] == 'f') emitted += "," + fbits(rtosc_argument(msg, 0).f);
+        if (vhx::have_x) emitted += ",x=" + fbits(vhx::last_x);
+        emitted += ",#" + std::to_string(rtosc_message_length(msg, 4096));
         vhx::have_x = false;
     };
 
